@@ -180,9 +180,15 @@ fn assemble_with_command(
 					println!("");
 				}
 
-				println!(
-					"{}",
-					String::from_utf8_lossy(&formatted));
+				// Print the bytes as they are: a raw binary output
+				// is not necessarily valid UTF-8
+				{
+					use std::io::Write;
+
+					let mut stdout = std::io::stdout();
+					let _ = stdout.write_all(&formatted);
+					let _ = stdout.write_all(b"\n");
+				}
 			}
 			else if let Some(ref output_filename) = output_group.output_filename
 			{
